@@ -14,6 +14,7 @@ from math import comb
 import networkx as nx
 
 from ..common import Result, sut, digest, SutRaised
+from ..interfere import interfere
 from ..exactpoly import P, percolation_poly, percolation_counts, percolation_value, ShadowUnsupported
 
 ID = "C16"
@@ -137,9 +138,17 @@ def run_case(case):
                         terms_got=got.nterms(), terms_want=want.nterms())
         else:
             counts, m = percolation_counts(list(g.nodes()), list(g.edges()), 0)
-            for _ in range(nfloat):
+            import numpy as np
+            for it in range(nfloat):
                 phi = rng.choice([0.0, 1.0, rng.random(), rng.random()])
                 us = {j: rng.choice([0.0, 1.0, rng.random(), rng.random(), rng.random()]) for j in range(1, tau)}
+                if it % 4 == 3:
+                    # other features of the library used in between; then values as a numpy-based caller holds them (np.float64) and as
+                    # small as messages get deep in the non-percolating phase (products underflow - quietly, to the exact answer 0)
+                    interfere(rng, None, res, only=("distribution factories", "sampled JointDegreeMarginal", "split-degree loaders"), k=2)
+                    phi = np.float64(phi)
+                    us = {j: np.float64(rng.choice([1e-170, 1e-200, 1e-45, u])) for j, u in us.items()}
+                    res.count("float_checks_on_tiny_numpy_values_after_other_features")
                 v = sut("clique_equation(float)", clique_equation, tau, phi, [us[j] for j in range(1, tau)])
                 w = percolation_value(counts, m, 0, phi, us)
                 res.count("float_checks")
